@@ -20,7 +20,7 @@ from .interp import (Adt, Cell, Ctx, Explorer, FnItem, Frame, Int, Interp, Opaqu
                      UNIT, VecV, INT_W, canon_callee, get_path)
 
 DONE, PANIC = "DONE", "PANIC"
-NCHOICE = 3
+NCHOICE = 8
 NARROW = 8      # unsigned shared counters / registers are stored in NARROW bits; every write carries the
                 # obligation "the dropped high bits are zero" (a reachable violation makes the run inconclusive)
 
@@ -348,6 +348,8 @@ class System:
         leaves = []
 
         def go(v):
+            if v is None:
+                return ("N",)
             if isinstance(v, Int):
                 leaves.append(("bv%d" % v.w, v.t))
                 return ("I", v.ty)
@@ -416,7 +418,7 @@ class System:
         for tag, c in self.roots.items():
             sk, leaves = self._skel_all_symbolic(c.v)
             if sk != self.root_skel[tag]:
-                raise Inconclusive("shape of shared root %s changed during an edge" % tag)
+                raise Inconclusive("shape of shared root %s changed during an edge: %s" % (tag, skel_diff(self.root_skel[tag], sk)))
             for i, (sort, term) in enumerate(leaves):
                 name = "S!%s!%d" % (tag, i)
                 st = sorts[name]
@@ -533,6 +535,8 @@ class System:
 
             def body(ctx, node=node):
                 it = Interp(self.progs[0], self.models, self.progs[1:])
+                it.enum_discr.update(getattr(sysm, "extra_discr", {}))
+                it.hooks.update(getattr(sysm, "hooks", {}))
                 it.system = sysm
                 it.thread = t
                 ctx.thread = t
@@ -610,6 +614,17 @@ class System:
     # -- encoding
     def encode(self, K, por=True):
         return Unrolling(self, K, por)
+
+
+def skel_diff(a, b, path=""):
+    if a == b:
+        return ""
+    if isinstance(a, tuple) and isinstance(b, tuple) and len(a) == len(b) and a and a[0] == b[0]:
+        for i, (x, y) in enumerate(zip(a, b)):
+            d = skel_diff(x, y, path + "/%d" % i)
+            if d:
+                return d
+    return "%s: %r -> %r" % (path, a, b)
 
 
 def mk_const(name, sort):
@@ -788,6 +803,23 @@ class Unrolling:
                         tr.append({"step": k, "thread": t, "op": e.label, "src": node_name(e.src), "dst": node_name(e.dst),
                                    "panic": e.panic})
         return v, tr, st
+
+    def decide_many(self, queries, timeout_s, tag="bmc", jobs=4):
+        """queries: list of (name, formula) -> dict name -> (verdict, trace or None, stats); one bit-blasting"""
+        from .. import sat
+        res = sat.decide_many(self.cons(), queries, timeout_s, lambda n: n.startswith("fire!"), tag, jobs)
+        out = {}
+        for name, (v, true, st) in res.items():
+            tr = None
+            if v == "sat":
+                tr = []
+                for k in range(self.K):
+                    for (t, e, f, sub) in self.fire[k]:
+                        if f.decl().name() in true:
+                            tr.append({"step": k, "thread": t, "op": e.label, "src": node_name(e.src), "dst": node_name(e.dst),
+                                       "panic": e.panic})
+            out[name] = (v, tr, st)
+        return out
 
     def trace(self, model):
         """list of (step, thread, edge label, src, dst) of a model"""
